@@ -9,6 +9,7 @@ import irrules
 
 # functions that create ICF records field by field (updaters of existing records, such as set_long_icf_fg_base, rewrite one field of a complete record and are not producers)
 PRODUCERS = ['gen_icf_map_h1_base', 'create_icf_block_hdr']
+UPDATERS = ['set_long_icf_fg_base']
 
 
 def root(f, v, depth=0):
@@ -98,9 +99,19 @@ def check(rep, mod, floor=2):
                  '(mask of surviving bits through the chain load / and-constant / or / store): no bit-field of a fresh record keeps the previous contents of the level buffer' % ', '.join(PRODUCERS), floor=floor,
                  unit='records built field by field')
     for fn in PRODUCERS:
-        f = mod.funcs.get(fn)
-        if f is None:
+        if fn not in mod.funcs:
             raise AnalysisBroken('R-RECORD-FULL: %s not found' % fn)
+    # a producer may delegate the field-by-field construction to a static helper (e.g. an extracted "write the end-of-block record"): file-local callees are producers too
+    prod, work = list(PRODUCERS), [(fn, 0) for fn in PRODUCERS]
+    while work:
+        fn, depth = work.pop()
+        for i in mod.funcs[fn].all_insns():
+            g = mod.funcs.get(i.callee or '') if i.op == 'call' else None
+            if g is not None and g.internal and g.name not in prod and g.name not in UPDATERS and depth < 2:
+                prod.append(g.name)
+                work.append((g.name, depth + 1))
+    for fn in prod:
+        f = mod.funcs[fn]
         for b, r, i, m in chains(f):
             R.instance()
             R.check(m == 0, mod.where(f, i), '%s: the record at %s is built field by field, but bits %#010x of its word are never written in this block: they keep the previous contents of the buffer and reach the '
